@@ -45,6 +45,35 @@ for i in range(1, 21):
               ", ".join(ev.get("axioms_reported", [])) or "none", cl(P.trusted_base), cl(P.assumptions)))
 tb.append("")
 tb.append("Total property theorems at the last runs: %d." % tot)
+# ---- findings as built (from KNOWN_FINDINGS.txt) and the summary table (from evidence)
+fr = ["| kind | property | commit / class | what failed |", "|---|---|---|---|"]
+for l in open(V + "/KNOWN_FINDINGS.txt"):
+    m = re.match(r"(fixed|known):\s+property=(\S+)\s+(\S+)\s+(.*)", l.strip())
+    if m:
+        fr.append("| %s | %s | %s | %s |" % (m.group(1), m.group(2), m.group(3), m.group(4).replace("|", "/")[:420]))
+d = put(d, "<!-- FINDINGS-BEGIN -->", "<!-- FINDINGS-END -->", "\n".join(fr))
+sm = ["| property | theorems | quick cases (last run) | distinct non-trivial | quick wall s | seeded changes kept | caught by own check | caught by another property's check | missed |", "|---|---|---|---|---|---|---|---|---|"]
+for i in range(1, 21):
+    pid = "C%02d" % i
+    try:
+        ev = json.load(open("%s/evidence/%s.json" % (V, pid)))
+    except Exception:
+        continue
+    c = ev["coverage"]
+    own = oth = miss = tot = 0
+    for m in glob.glob(V + "/seeded/%s-*/meta.json" % pid):
+        j = json.load(open(m)); tot += 1
+        dd = j.get("detected", {})
+        r = dd.get("result") if isinstance(dd, dict) else str(dd)
+        if r == "MISSED":
+            if any(v.get("result") == "VIOLATION" for v in j.get("detected_by_other", {}).values()):
+                oth += 1
+            else:
+                miss += 1
+        else:
+            own += 1
+    sm.append("| %s | %s | %s | %s | %s | %d | %d | %d | %d |" % (pid, c.get("obligations"), c.get("evaluations"), c.get("distinct_nontrivial"), ev.get("wall_s"), tot, own, oth, miss))
+d = put(d, "<!-- SUMMARY-BEGIN -->", "<!-- SUMMARY-END -->", "\n".join(sm))
 d = put(d, "<!-- TB-BEGIN -->", "<!-- TB-END -->", "\n".join(tb))
 d = put(d, "<!-- BUILT-BEGIN -->", "<!-- BUILT-END -->", built)
 d = put(d, "<!-- SEEDED-BEGIN -->", "<!-- SEEDED-END -->", "\n".join(rows))
